@@ -543,7 +543,9 @@ class _ExtendedTypeFetcher(Thread):
 
     def _new_packet_cb(self, pk):
         """Callback for newly arrived packets"""
-        if pk.channel == MISC_CHANNEL:
+        # Only the answer to our request: the misc channel also carries
+        # e.g. unsolicited value-updated notifications for the same parameter
+        if pk.channel == MISC_CHANNEL and pk.data[0] == MISC_GET_EXTENDED_TYPE:
             var_id = struct.unpack('<H', pk.data[1:3])[0]
 
             if self._req_param == var_id:
